@@ -23,6 +23,7 @@ class Env:
         self.stat_calls = 0
         self.open_hook = None        # f(path:str, mode:str) -> None | Exception | file-like
         self.open_calls = 0
+        self.unlink_hook = None      # f(op:str, path:str) -> None | Exception   (os.unlink/remove/rename/replace)
 
 
 ENV = Env()
@@ -44,7 +45,7 @@ def install():
         return
     _installed = True
     REAL.update(time=time.time, listdir=os.listdir, stat=os.stat, lstat=os.lstat, open=builtins.open,
-                scandir=os.scandir)
+                scandir=os.scandir, unlink=os.unlink, remove=os.remove, rename=os.rename, replace=os.replace)
 
     def vtime():
         ENV.clock_reads += 1
@@ -99,6 +100,17 @@ def install():
         ENV.listdir_calls += 1
         return REAL["scandir"](path)
 
+    def _removal(op):
+        def f(path, *a, **k):
+            if ENV.unlink_hook is not None and not isinstance(path, int):
+                ex = ENV.unlink_hook(op, _s(path))
+                if ex is not None:
+                    raise ex
+            return REAL[op](path, *a, **k)
+        f.__name__ = op
+        return f
+
+    os.unlink, os.remove, os.rename, os.replace = _removal("unlink"), _removal("remove"), _removal("rename"), _removal("replace")
     time.time = vtime
     os.scandir = scandir
     os.listdir = listdir
